@@ -28,7 +28,15 @@ def prune(spec: dict[str, Any]) -> dict[str, Any]:
 
 
 def shrink(spec: dict[str, Any], fails: Callable[[dict[str, Any]], bool],
-           max_rounds: int = 8, vset: int = 0) -> dict[str, Any]:
+           max_rounds: int = 8, vset: int = 0, budget_s: float = 60.0) -> dict[str, Any]:
+    import time
+    t_end = time.time() + budget_s
+    fails0 = fails
+
+    def fails(s: dict[str, Any]) -> bool:  # noqa: F811 -- budgeted wrapper
+        if time.time() > t_end:
+            return False          # out of minimisation budget: keep what we have
+        return fails0(s)
     cur = prune(spec)
     if not fails(cur):
         # the failure is tied to a node that does not feed an output (e.g. a
